@@ -20,7 +20,7 @@ TRUSTED = ["model: coq/Model/Apps.v socks_* (hand-written from src/socks_server.
 ASSUMPTIONS = ["every route contains a queue; no packet loss", "IPv4 targets only (the server rejects address type 4)"]
 
 SPORT = 1080
-OPORT = 9000
+OPORT = 9090      # 0x2382: a low byte above 0x7f (the request buffer is plain, i.e. signed, char)
 ORIGIN = A1 + 2
 
 
